@@ -20,6 +20,7 @@ func init() {
 			"C14.5 helper goroutines terminate: the goroutine delivering a reply sends on a fresh channel of capacity ≥ 1 (it can never block, whenever the reply arrives); a traversal query's context is cancelled by a watcher on the stopping event and the watcher itself is released by the cancel that follows the query (shared with C07.5, C04.4); " +
 			"C14.6 closed means silent: the one socket write is dominated by closed.IsSet()=false evaluated under the lock in the same call (shared with C19.1); " +
 			"C14.7 every blocking operation (channel wait, WaitGroup.Wait, socket I/O) executes with Server.mu released in every calling context, so a join can never wait for a query that needs the lock to finish; " +
+			"C14.9 inside every function installed as a traversal's DoQuery callback, each blocking channel operation is a select with a receive on Done() of the callback's own context parameter (the context the traversal cancels when it starts stopping, C04.4) or on a close event every setter of which also stops the lookup - not the caller's context, and not an event such as Stopped() that itself waits for the callback to return; " +
 			"C14.8 each goroutine that reports Done on a WaitGroup is counted by Add in the starting goroutine before the go statement.",
 		NotDecided: "goroutine and datagram counts at run time, latency bounds, behaviour of custom Conn implementations; whether callers of the public API (Announce.Close, StopTraversing) are eventually invoked.",
 		Assume:     []string{"traversal.Operation.Stop is idempotent (guarded by stopping.Set())"},
@@ -31,6 +32,7 @@ func init() {
 			{ID: "C14.5", Doc: "helper goroutines always terminate: reply delivery cannot block, per-query watcher is released and fires on stop", Floor: 5, Run: func(w *World, rr *RuleRun) { c07r5(w, rr); c04r4(w, rr) }},
 			{ID: "C14.6", Doc: "no write after close", Floor: 4, Run: c19r1},
 			{ID: "C14.7", Doc: "joins cannot deadlock on the server lock: every channel wait, WaitGroup.Wait and socket call runs with Server.mu released (shared with C01.7)", Floor: 10, Run: c01r7},
+			{ID: "C14.9", Doc: "a query callback can always be released by stopping its lookup: each of its blocking channel operations has a case on its own query context", Floor: 3, Run: c14r9},
 			{ID: "C14.8", Doc: "WaitGroup joins count every goroutine before it starts", Floor: 3, Run: c14r8},
 		},
 	})
@@ -538,5 +540,69 @@ func c14r8(w *World, rr *RuleRun) {
 	}
 	if n == 0 {
 		rr.Broken("no WaitGroup join found in library code")
+	}
+}
+
+// c14r9: Stop() waits for every in-flight DoQuery to return; a DoQuery that blocks on a channel
+// must therefore be released by the stopping event itself, which reaches it as the cancellation of
+// its own context parameter.
+func c14r9(w *World, rr *RuleRun) {
+	t := w.trav()
+	seen := map[*ssa.Function]bool{}
+	var cbs []*ssa.Function
+	add := func(f *ssa.Function) {
+		if f != nil && !seen[f] && w.P.IsLib(f) && len(f.Blocks) > 0 {
+			seen[f] = true
+			cbs = append(cbs, f)
+		}
+	}
+	for _, cb := range w.CG.FieldFuncs(t.doQuery) {
+		if cb.Synthetic != "" {
+			for _, e := range w.CG.Out[cb] {
+				add(e.Callee)
+			}
+			continue
+		}
+		add(cb)
+	}
+	if len(cbs) < 3 {
+		rr.Broken("only %d DoQuery callbacks found in library code", len(cbs))
+	}
+	for _, cb := range cbs {
+		n := 0
+		fns := append([]*ssa.Function{cb}, w.Region[cb]...)
+		eachInstr(fns, func(fn *ssa.Function, ins ssa.Instruction) {
+			switch x := ins.(type) {
+			case *ssa.Select:
+				if !x.Blocking {
+					return
+				}
+				n++
+				ok := false
+				for _, st := range x.States {
+					if st.Dir == types.RecvOnly && (w.isOwnQueryCtxDone(w.TS.Of(st.Chan), fn) || w.isCloseEventDone(w.TS.Of(st.Chan), false)) {
+						ok = true
+					}
+				}
+				var chans []string
+				for _, st := range x.States {
+					chans = append(chans, trunc(w.TS.Of(st.Chan).String(), 60))
+				}
+				rr.At(w, ins, "a blocking select in a query callback has a case that fires when the lookup is told to stop (its own context, or a close event whose setter also stops the lookup)", ok, "cases: "+strings.Join(chans, " | "))
+			case *ssa.Send:
+				n++
+				rr.At(w, ins, "a query callback never blocks on a bare channel send", false, "send on "+trunc(w.TS.Of(x.Chan).String(), 80))
+			case *ssa.UnOp:
+				if x.Op != token.ARROW {
+					return
+				}
+				n++
+				ok := w.isOwnQueryCtxDone(w.TS.Of(x.X), fn)
+				rr.At(w, ins, "a query callback never blocks on a bare channel receive (other than its own context)", ok, "receive from "+trunc(w.TS.Of(x.X).String(), 80))
+			}
+		})
+		if n == 0 {
+			rr.ObligeTrivial(shortFuncName(cb), "query callback has no channel operation of its own", w.P.Pos(cb.Pos()), true, "")
+		}
 	}
 }
